@@ -582,3 +582,44 @@ def nontrivial_key(c, impl):
     if t[0] == "surf_enc2":
         return (impl,) if impl not in ("N N",) else None
     return None
+
+
+# ---------------------------------------------------------------------------------------------
+# Part B (enum bitmaps, temporal indexes, xor keys: tools/props/c08b.py) is folded in here: one
+# property, one check.  Cases are told apart by their probe prefix (surf_ = part A, zidx_ = part B).
+from props import c08b as _B
+
+_A = {"cases": cases, "same": same, "oracle": oracle, "classify": classify, "nontrivial_key": nontrivial_key,
+      "corpus": corpus}
+THEOREMS = list(THEOREMS) + list(_B.THEOREMS)
+RULE = RULE + " || part B: " + _B.RULE
+ASSUMPTIONS = list(ASSUMPTIONS) + [x for x in _B.ASSUMPTIONS if x not in ASSUMPTIONS]
+TRUSTED = list(TRUSTED) + [x for x in _B.TRUSTED if x not in TRUSTED]
+
+
+def _isb(c):
+    return c.get("line", "").startswith("zidx_")
+
+
+def corpus():
+    return _A["corpus"]() + _B.corpus()
+
+
+def cases(rng, tier):
+    return _A["cases"](rng.fork("A"), tier) + _B.cases(rng.fork("B"), tier)
+
+
+def same(c, impl, model):
+    return _B.same(c, impl, model) if _isb(c) else _A["same"](c, impl, model)
+
+
+def oracle(c, impl):
+    return _B.oracle(c, impl) if _isb(c) else _A["oracle"](c, impl)
+
+
+def classify(c, impl):
+    return _B.classify(c, impl) if _isb(c) else _A["classify"](c, impl)
+
+
+def nontrivial_key(c, impl):
+    return _B.nontrivial_key(c, impl) if _isb(c) else _A["nontrivial_key"](c, impl)
